@@ -72,6 +72,23 @@ def gen_cases(ctx, flags, n_random, n_sign):
         raw = wire.tx_encode(tx).hex()
         for f in flags:
             yield {"k": "pre", "tx": raw, "flag": f, "idx": 1, "script": mk_subscript(r, kind).hex(), "value": gen.u64(r)}
+    # transactions with null-outpoint (coinbase-style) inputs: alone (the transaction then counts as a coinbase) or next to ordinary inputs
+    for t_i in range(6):
+        k += 1
+        if k % N != S:
+            continue
+        ni = [1, 1, 2, 3, 1, 2][t_i]
+        no = r.choice([1, 2, 3])
+        tx = gen.gen_tx(r, ni, max(no, ni), coinbase=True, script_kw={"n_tokens": 1})
+        if t_i >= 4:
+            # null txid but ordinary index, and ordinary txid with index 0xffffffff (NOT coinbase inputs)
+            tx["ins"][0]["vout"] = r.choice([0, 0xFFFFFFFE])
+            tx["ins"][0]["script"] = b"\x51"
+        raw = wire.tx_encode(tx).hex()
+        for idx in range(ni):
+            for f in flags:
+                yield {"k": "pre", "tx": raw, "flag": f, "idx": idx, "script": mk_subscript(r, r.choice(["p2pkh", "one", "sep"])).hex(), "value": gen.u64(r), "null_outpoint": True}
+        yield {"k": "sign", "tx": raw, "flag": r.choice(flags), "idx": 0, "script": mk_subscript(r, "p2pkh").hex(), "value": gen.u64(r), "key": "%064x" % r.randrange(1, ec.N), "compressed": True, "nonce": None, "ext": None, "null_outpoint": True}
     # twin inputs: the signed input has exact duplicates (same outpoint, sequence and script) elsewhere in the transaction, and the
     # subscript is empty / only code separators / equal to the twins' script (selection of "the signed input" by value instead of by position)
     for t_i in range(6):
@@ -160,6 +177,8 @@ def judge(ctx, case, forkid):
         ctx.hit("subscript>=253")
     if len(sub) >= 65536:
         ctx.hit("subscript>=65536")
+    if case.get("null_outpoint"):
+        ctx.hit("null_outpoint_inputs")
     if case.get("twin"):
         ctx.hit("twin_inputs")
     if case.get("deep_sep"):
